@@ -386,8 +386,16 @@ fn panic_msg(p: Box<dyn std::any::Any + Send>) -> String {
     }
 }
 
+thread_local! {
+    /// true while the code under test runs (its panics are caught and judged, not printed)
+    pub static IN_GUARD: std::cell::Cell<bool> = const { std::cell::Cell::new(false) };
+}
+
 fn guard<T, E: std::fmt::Display>(f: impl FnOnce() -> Result<T, E>) -> (V, Option<T>) {
-    match catch_unwind(AssertUnwindSafe(f)) {
+    IN_GUARD.with(|g| g.set(true));
+    let r = catch_unwind(AssertUnwindSafe(f));
+    IN_GUARD.with(|g| g.set(false));
+    match r {
         Ok(Ok(t)) => (V::Ok, Some(t)),
         Ok(Err(e)) => (V::Err(e.to_string()), None),
         Err(p) => (V::Panic(panic_msg(p)), None),
